@@ -92,9 +92,9 @@ def programs(tier: str):
     kmax = BOUNDS[tier]["max_spawns"]
     for k in range(0, kmax + 1):
         for combo in itertools.combinations_with_replacement(range(len(SPAWNS)), k):
-            for ending, cancels in (("return", 0), ("raise", 0), ("raise_base", 0), ("return", 1)):
+            for ending, cancels in (("return", 0), ("raise", 0), ("raise_base", 0), ("raise_falsy", 0), ("raise_badstr", 0), ("return", 1)):
                 for outer in (False, True):
-                    if outer and (k == kmax or ending == "raise_base"):
+                    if outer and (k == kmax or ending in ("raise_base", "raise_falsy", "raise_badstr")):
                         continue
                     yield _prog(combo, ending, cancels, outer)
                     if not outer and 1 <= k <= 2:
